@@ -24,7 +24,7 @@ META = dict(
 
 def configs(tier):
     out = []
-    for s in [(1, 1), (2, 1), (2, 2), (1, 1, 1), (0, 2)]:
+    for s in [(1, 1), (2, 1), (2, 2), (1, 1, 1), (0, 2), (2, 1, 0)]:
         for b in ["cbc", "glpk_import"]:
             out.append(dict(key=f"soft,sizes={s},{b}", sizes=list(s), dissim="abstract", backend=b, mode="soft",
                             cost=len(common.all_tuples(s)) ** 2))
